@@ -76,6 +76,10 @@ pub mod util;
 pub mod validator;
 pub mod writer;
 
+#[cfg(feature = "apache_avro_rs_verif")]
+#[doc(hidden)]
+pub mod __verif_hooks;
+
 #[expect(deprecated)]
 pub use crate::{
     bigdecimal::BigDecimal,
